@@ -26,6 +26,7 @@ CONSTANTS
  NodeTeardown = FALSE
  MayVanish = FALSE
  SweepRelays = TRUE
+ E2E = FALSE
  Aead = FALSE
  CheckIdent = TRUE
  AutoTimers = TRUE
